@@ -101,9 +101,7 @@ theorem intoContainer_K {e} {n : Node} (hn : KN e n) : ConKS e (intoContainer n)
 
 theorem enter_K {e cr key next} (hn : KN e next) : ConKS e (enter cr key next) := by
   unfold enter
-  split
-  · trivial
-  · exact intoContainer_K hn
+  exact intoContainer_K hn
 
 theorem decodeRoot_K {e} {c : Cst} (h : KC e c) : ConKS e (decodeRoot c) := by
   cases c with
@@ -120,16 +118,12 @@ theorem conGet_K {e o self con key} (hs : KN e self) (hc : KN e con) :
   | doc keys obj =>
     simp only [conGet]
     split
-    · exact hs
-    · split
-      · rename_i n hl
-        exact ((KN_doc e keys obj).1 hc).2.2 _ (lookupN_mem hl)
-      · trivial
+    · rename_i n hl
+      exact ((KN_doc e keys obj).1 hc).2.2 _ (lookupN_mem hl)
+    · trivial
   | docNil =>
     simp only [conGet]
-    split
-    · exact hs
-    · trivial
+    trivial
   | ary nodes =>
     have hm := (KN_ary e nodes).1 hc
     simp only [conGet]
@@ -280,14 +274,10 @@ theorem wrapWalk_K {α} {e} {Q : α → Prop} {o con key} {w : Walk α}
   cases w with
   | done child' a =>
     simp only [wrapWalk]
-    split
-    · exact ⟨hw.1.1, hw.2⟩
-    · exact ⟨putChild_K hc hw.1.1, hw.2⟩
+    exact ⟨putChild_K hc hw.1.1, hw.2⟩
   | notFound child' =>
     simp only [wrapWalk]
-    split
-    · exact hw.1
-    · exact putChild_K hc hw.1
+    exact putChild_K hc hw.1
   | fail e => trivial
   | panic => trivial
   | doneSelf s a => exact hw
@@ -576,9 +566,7 @@ theorem ensurePut_K {e o con key self x} (hc : KS e con) (hs : KN e self) (hx : 
   | ok p =>
     obtain ⟨child, s'⟩ := p
     simp only [ensurePut]
-    split
-    · exact ⟨hc, hx.1.1⟩
-    · exact ⟨putChild_K hc hx.1.1, hs⟩
+    exact ⟨putChild_K hc hx.1.1, hs⟩
   | err e => trivial
   | panic => trivial
 
@@ -720,11 +708,7 @@ theorem opMove_K {e o r op} (he : o.esc = e) (hr : RootK e r) (hv : OpK e op) : 
         | err e => trivial
         | ok x =>
           rw [hg] at hg'
-          have hvx : KN e (if key = [] then (deepCopy o.esc x).1 else x) := by
-            split
-            · rw [he]; exact KN_deepCopy hg'
-            · exact hg'
-          exact liftAct_K (conRemove_K hc.1) hvx
+          exact liftAct_K (conRemove_K hc.1) hg'
       have hcont : ∀ r1 val, RootK e r1 → KN e val → OutK e (liftWalk r1 (addWalk o r1 op.path val)
           (fun _ => .err .missing)) := by
         intro r1 val h1 hvv
@@ -765,9 +749,7 @@ theorem opTest_K {e o r op} (hr : RootK e r) : OutK e (opTest o r op) := by
       | mk b val' =>
         simp only []
         split
-        · split
-          · exact ⟨hc, trivial⟩
-          · exact ⟨hc, trivial⟩
+        · exact ⟨hc, trivial⟩
         · trivial
     | ok val =>
       simp only []
@@ -780,9 +762,7 @@ theorem opTest_K {e o r op} (hr : RootK e r) : OutK e (opTest o r op) := by
         split
         · split
           · exact ⟨hc, trivial⟩
-          · split
-            · exact ⟨hc, trivial⟩
-            · exact ⟨putChild_K hc this, trivial⟩
+          · exact ⟨putChild_K hc this, trivial⟩
         · trivial
 
 /-! #### copy -/
@@ -809,6 +789,14 @@ theorem copySource_K {e o r frm} (hr : RootK e r) : WalkK e (fun v => KN e v) (c
   | err e => trivial
   | ok x => rw [hg] at hg'; exact ⟨hc, hg'⟩
 
+theorem copyFirst_K {e o r frm} (hr : RootK e r) : WalkK e (fun v => KN e v) (copyFirst o r frm) := by
+  unfold copyFirst
+  split
+  · split
+    · trivial
+    · exact ⟨hr.1, hr.1.1⟩
+  · exact copySource_K hr
+
 theorem destWalk_K {e o r path} (hr : RootK e r) : WalkK e (fun _ => True) (destWalk o r path) :=
   withPath_K o r _ _ _ hr fun _ _ _ hc _ => ⟨hc, trivial⟩
 
@@ -827,7 +815,7 @@ theorem opCopy_K {e o r acc op} (he : o.esc = e) (hr : RootK e r) (hv : OpK e op
   split
   · trivial
   · rename_i frm _
-    have hw1 := copySource_K (o := o) (frm := frm) hr
+    have hw1 := copyFirst_K (o := o) (frm := frm) hr
     split
     · exact failOf_K
     · rename_i r1 h1
